@@ -1012,6 +1012,14 @@ theorem read_write_crlf_full_refuted :
   revert this
   decide +kernel
 
+/-- non-vacuity of `read_write_crlf_exact`: the witness of the finding meets its hypotheses (the
+theorem says what IS read from the CRLF text: the note `a\r\nb`) -/
+example : Writable Registry.default crlfWitness [] = true ∧ (∀ x ∈ crlfWitness.table, LocRTC x.loc) ∧
+    (readBackC Registry.default crlfWitness []).table.map (·.props) = [[[bs "note", bs "a\r\nb"]]] := by
+  have h := read_write_crlf_full_refuted.1
+  simp only [WritableRecord, Bool.and_eq_true] at h
+  exact ⟨h.1, fun x hx => locRTC_of_canon x.loc (List.all_eq_true.mp h.2 x hx), by decide +kernel⟩
+
 /-- **read (crlf (write r)) = read (write r), proved part** (guard `quotedOneLine reg r.table`,
 decidable: no value that is written between quotes — its name registered as quoted, or unknown —
 contains a line feed; literal values may).  For a `Writable` record with canonical locations:
@@ -1087,8 +1095,16 @@ theorem read_stream_crlf_partial (reg reg' : Registry) (hs : sameText reg reg') 
   exact ⟨t, h1, h2, by rw [h2, h3]⟩
 
 /-- non-vacuity: the two records of `streamWitness` (the first teaches `my_tag`) meet the hypotheses
-of `read_stream_crlf_partial` -/
-example : ∀ x ∈ streamWitness, x.1.origin = .residues x.2 ∧ WritableRecord Registry.default x.1 x.2 = true ∧
-    quotedOneLine Registry.default x.1.table = true := by decide +kernel
+of `read_stream_crlf_partial` and of `read_stream_crlf_exact` -/
+example : (∀ x ∈ streamWitness, x.1.origin = .residues x.2 ∧ WritableRecord Registry.default x.1 x.2 = true ∧
+      quotedOneLine Registry.default x.1.table = true) ∧
+    (∀ x ∈ streamWitness, x.1.origin = .residues x.2 ∧ Writable Registry.default x.1 x.2 = true ∧
+      (∀ f ∈ x.1.table, LocRTC f.loc)) := by
+  have h : ∀ x ∈ streamWitness, x.1.origin = .residues x.2 ∧ WritableRecord Registry.default x.1 x.2 = true ∧
+      quotedOneLine Registry.default x.1.table = true := by decide +kernel
+  refine ⟨h, fun x hx => ?_⟩
+  obtain ⟨ho, hw, _⟩ := h x hx
+  simp only [WritableRecord, Bool.and_eq_true] at hw
+  exact ⟨ho, hw.1, fun f hf => locRTC_of_canon f.loc (List.all_eq_true.mp hw.2 f hf)⟩
 
 end Gts.C01
